@@ -175,9 +175,11 @@ of_status_t	of_set_fec_parameters  (of_session_t* ses,	of_parameters_t*	params)
 		OF_PRINT_ERROR ( ("Error, bad ses or params pointer (null)\n"))
 		goto error;
 	}
+	if ((
 #ifdef OF_USE_LDPC_FROM_FILE_CODEC
-	if (( (of_cb_t*) ses)->codec_id != OF_CODEC_LDPC_FROM_FILE_ADVANCED &&
-	    ((params->nb_source_symbols <= 0) || (params->nb_repair_symbols <= 0)) ||
+	     ( (of_cb_t*) ses)->codec_id != OF_CODEC_LDPC_FROM_FILE_ADVANCED &&
+#endif
+	     ((params->nb_source_symbols <= 0) || (params->nb_repair_symbols <= 0))) ||
 	    (params->encoding_symbol_length <= 0))
 	{
 		OF_PRINT_ERROR ( ("Error, bad parameters:"))
@@ -195,7 +197,6 @@ of_status_t	of_set_fec_parameters  (of_session_t* ses,	of_parameters_t*	params)
 		}
 		goto error;
 	}
-#endif	
 	switch ( ( (of_cb_t*) ses)->codec_id)
 	{
 #ifdef OF_USE_REED_SOLOMON_CODEC
